@@ -441,6 +441,7 @@ func (c *minecraftConn) closeKnown(markKnown bool) (err error) {
 		err = c.c.Close()
 
 		if sh := c.ActiveSessionHandler(); sh != nil {
+			verifhook.Point("cc.disconnecting", "known", markKnown)
 			sh.Disconnected()
 
 			if p, ok := sh.(interface{ PlayerLog() logr.Logger }); ok && !c.knownDisconnect.Load() {
